@@ -250,11 +250,6 @@ def is_in_import_blacklist(name: ModuleName) -> bool:
     if not name:
         return True
 
-    # Exclude stdlib modules such as the built-in "_thread" (stdlib modules are handled
-    # separately from blacklist).
-    if is_in_stdlib(name):
-        return False
-
     origins = [__safe_origin(module) for module in derive_module_names_right(name)]
 
     # It is possible that we can't determine the spec (due to some PYTHON_PATH
